@@ -87,6 +87,15 @@ def _boundary_cases():
     for pol in ("idem", "nonidem"):
         out.append(("faults", [("net", "accept"), ("open",), ("adv", 8), ("block", 1), ("send", 1, "ok", pol), ("turn", 2),
                                ("peer", "reset"), ("adv", 40)]))
+    # ... and the reconnection takes a while (ordinary connect latency): the read loop has taken the connection down, no new one is up
+    # yet, and only then does the held-up flush fail - the failed write still counts as an attempt (a command without retries is
+    # not transmitted again on the next connection; one with retries is, once)
+    for pol in ("idem", "nonidem", "conn"):
+        for lat in (1, 2, 17):
+            for k in (0, 1, 2, 4):
+                for fail in ("reset", "timeout", "eof"):
+                    out.append(("faults", [("net", "accept"), ("open",), ("adv", 8), ("lat", lat), ("block", 1), ("send", 1, "ok", pol), ("turn", k),
+                                           ("peer", fail), ("turn", 2), ("send", 2, "ok", "idem"), ("adv", 40 + lat), ("heal",)]))
     return out
 
 
@@ -110,6 +119,7 @@ def run(ctx, deep=False):
         good = sockcheck.judge_family(ctx, "C02", items, MONITORS, gen=gen, nontrivial=_nontrivial)
         sockcheck.validate_against_model(ctx, good, "AT%d" % gen)
     api_level(ctx, thorough)
+    full_stack(ctx, thorough)
     ctx.assumptions += ["at the API layer the retry policy of every message the real objects send is judged against the vendor reading of that message "
                         "(accumulating commands: no retry; own-initiative requests: 1 s lifetime; other commands: the idempotent policy)"]
 
@@ -202,6 +212,52 @@ def api_level(ctx, thorough):
                              "frame says toggle / change / next / increase / decrease.")
 
 
+def _fs_seen(gen, b, kind):
+    key = {"ac": (0x2C, None) if gen == 4 else (0xC0, 0x22), "zone": (0x2A, None) if gen == 4 else (0xC0, 0x20)}[kind]
+    return [(r[0], r[1]) for r in b["requests"] if r[2] == key]
+
+
+def full_stack(ctx, thorough):
+    """the real API object over the real socket and the in-memory transport, with the loop's default and with its EAGER task factory (under
+    which the read loop completes the disconnect before the task whose flush was held up is told of the loss - an order of events the
+    block-by-block recordings of the socket harness, which need their own task class, do not produce): one control call whose write is
+    held up on a congested link, then the link is lost.  An accumulating command (no retries) is on the wire at most once; any command at
+    most 1 + retries times, each time on another connection."""
+    import fullstack
+    ctx.coverage["rule"] += ("; full stack (real API object, real socket, in-memory transport, default and eager task factory): a control call held up on a "
+                             "congested link, the link lost 1..4 ticks later (reset / timed out / end of stream), reconnection latency 0..17 ticks - the "
+                             "console counts the control frames it receives per connection")
+    worst = None
+    for gen in (4, 5):
+        for eager in (False, True):
+            for lat in ((0, 1, 2, 17) if thorough else (0, 2)):
+                for k in ((1, 2, 3, 4) if thorough else (1, 3)):
+                    for what in ("reset", "timeout", "eof"):
+                        for call, kind, limit in (("toggle", "ac", 1), ("power", "ac", 6), ("zone", "zone", 6)):
+                            sc = dict(inst=fullstack.INST, horizon=200, eager=eager, latency=lat, faults=[(60, "block"), (61 + k, what)], calls=[(61, call)])
+                            b = fullstack.run(gen, sc)
+                            ctx.case(("full-stack", gen, eager, lat, k, what, call))
+                            if b.get("init_result") is not True:
+                                ctx.tie_broken("C02:console-script", "the full-stack console no longer initialises the AirTouch %d object" % gen)
+                                continue
+                            made = [c for c in b["call_log"] if c[1] == call and c[2] == "called"]
+                            seen = _fs_seen(gen, b, kind)
+                            ctx.count("full-stack:%s:frames=%d" % (call, len(seen)))
+                            why = None
+                            if len(made) == 1 and len(seen) > limit:
+                                why = "one %s call was put on the wire %d times (its policy allows %d attempt(s))" % (call, len(seen), limit)
+                            elif len(made) == 1 and len(set(c for _, c in seen)) < len(seen):
+                                why = "one %s call was written more than once on the same connection" % call
+                            if why and worst is None:
+                                worst = (gen, sc, why, seen)
+    if worst:
+        gen, sc, why, seen = worst
+        sc = {k: v for k, v in sc.items() if k != "inst"}
+        ctx.violation("C02:full-stack", "AirTouch %d, %s task factory, link congested at tick 60 and lost (%s) at %d, reconnection latency %d ticks: %s; control frames at the "
+                      "console (tick, connection): %s" % (gen, "eager" if sc["eager"] else "default", sc["faults"][1][1], sc["faults"][1][0], sc["latency"], why, seen),
+                      kind="history", level="full-stack", gen=gen, scenario=sc, implementation_output=str(seen), spec_verdict=why)
+
+
 def search(ctx):
     if ctx.tier != "thorough":
         run(ctx, deep=True)
@@ -210,5 +266,13 @@ def search(ctx):
 def replay(ctx, data):
     if data.get("level") == "api":
         print(data.get("op"), data.get("spec_verdict"))
+        return 1
+    if data.get("level") == "full-stack":
+        import fullstack
+        sc = dict(data["scenario"], inst=fullstack.INST)
+        sc["faults"] = [tuple(f) for f in sc["faults"]]
+        sc["calls"] = [tuple(c) for c in sc["calls"]]
+        b = fullstack.run(data["gen"], sc)
+        print("calls:", b["call_log"], "control frames at the console (tick, connection):", _fs_seen(data["gen"], b, "ac"), _fs_seen(data["gen"], b, "zone"))
         return 1
     return sockcheck.replay(ctx, data)
